@@ -298,6 +298,9 @@ func c08Exec(t *testing.T, sc *gen.Scenario, trace bool) *harness.Outcome {
 					if rq2.Kind == "check" && SelfRecursiveUsersetUnion(sc.Model, rm.ObjType(rq2.Obj), rq2.Rel) {
 						tag += " reaches_self_recursive_userset_in_union"
 					}
+					if rq2.Kind == "check" && SelfRecursiveTTU(sc.Model, rm.ObjType(rq2.Obj), rq2.Rel) {
+						tag += " reaches_self_recursive_ttu"
+					}
 					e.Violate("cache_changes_answer", fmt.Sprintf("mode=%d kind=%s subj=%s%s", mode, rq2.Kind, subjKind(rq2.User), tag), "request %d copy %d (%+v): %s with the query cache on, %s with caching disabled (cache stats %v)", i, k, rq2, a.s, want.s, cache.Stats())
 					return
 				}
@@ -471,6 +474,54 @@ func c09Exec(t *testing.T, sc *gen.Scenario, trace bool) *harness.Outcome {
 
 // ---------------------------------------------------------------- C10 HIGHER_CONSISTENCY
 
+// dependentChecks lists Check requests whose evaluation reaches t.Obj#t.Rel one dispatch or more
+// below the root: through a computed userset or a tuple-to-userset of the model, or through a stored
+// userset tuple naming t.Obj#t.Rel.
+func dependentChecks(m *rm.Model, tuples []rm.Tuple, t rm.Tuple) []gen.Request {
+	user := t.User
+	if rm.IsUserset(user) || rm.IsWildcard(user) {
+		return nil
+	}
+	var out []gen.Request
+	uses := func(rw *rm.Rewrite, pred func(*rm.Rewrite) bool) bool {
+		found := false
+		var walk func(*rm.Rewrite)
+		walk = func(r *rm.Rewrite) {
+			if pred(r) {
+				found = true
+			}
+			for _, c := range r.Children {
+				walk(c)
+			}
+		}
+		walk(rw)
+		return found
+	}
+	ot := rm.ObjType(t.Obj)
+	if td := m.Type(ot); td != nil {
+		for _, r := range td.Relations {
+			if r.Name != t.Rel && uses(r.Rewrite, func(x *rm.Rewrite) bool { return x.Kind == rm.Computed && x.Relation == t.Rel }) {
+				out = append(out, gen.Request{Kind: "check", Obj: t.Obj, Rel: r.Name, User: user})
+			}
+		}
+	}
+	for _, o := range tuples {
+		if o.User == t.Obj+"#"+t.Rel {
+			out = append(out, gen.Request{Kind: "check", Obj: o.Obj, Rel: o.Rel, User: user})
+		}
+		if o.User == t.Obj && m.IsTupleset(rm.ObjType(o.Obj), o.Rel) {
+			if td := m.Type(rm.ObjType(o.Obj)); td != nil {
+				for _, r := range td.Relations {
+					if uses(r.Rewrite, func(x *rm.Rewrite) bool { return x.Kind == rm.TTU && x.Tupleset == o.Rel && x.Relation == t.Rel }) {
+						out = append(out, gen.Request{Kind: "check", Obj: o.Obj, Rel: r.Name, User: user})
+					}
+				}
+			}
+		}
+	}
+	return out
+}
+
 func c10Gen(runSeed uint64, tier string) *gen.Scenario {
 	sc := genEngineScenario(runSeed, tier, 0)
 	g := gen.New(runSeed ^ 0xc10)
@@ -499,6 +550,23 @@ func c10Gen(runSeed uint64, tier string) *gen.Scenario {
 	warm()
 	for round := 0; round < 3+g.Intn(3) && len(pool) > 0; round++ {
 		t := gen.Pick(g, pool)
+		if g.Chance(0.5) {
+			// a cached-mode request that is still in flight while the write lands and the
+			// higher-consistency requests that follow are served (it reads before the write and stores
+			// what it computed after they have started)
+			for k := 0; k < 1+g.Intn(2); k++ {
+				r := gen.Pick(g, reqs)
+				if dep := dependentChecks(sc.Model, stored, t); len(dep) > 0 && g.Chance(0.7) {
+					r = gen.Pick(g, dep) // the written tuple sits below the root of this request
+				} else if g.Chance(0.5) {
+					r.Obj, r.Rel = t.Obj, t.Rel
+					if !rm.IsUserset(t.User) && !rm.IsWildcard(t.User) {
+						r.User = t.User
+					}
+				}
+				ops = append(ops, gen.Op{Kind: "req", Req: &r, N: 1 + g.Intn(2), Dur: int64(g.Intn(60)) * int64(time.Microsecond)})
+			}
+		}
 		if present[t.Key()] {
 			ops = append(ops, gen.Op{Kind: "write", Deletes: []rm.Tuple{t}})
 			present[t.Key()] = false
@@ -512,7 +580,9 @@ func c10Gen(runSeed uint64, tier string) *gen.Scenario {
 		// higher-consistency queries right after the write, about the things the write touches
 		for k := 0; k < 2+g.Intn(3); k++ {
 			r := gen.Pick(g, reqs)
-			if g.Chance(0.6) {
+			if dep := dependentChecks(sc.Model, stored, t); len(dep) > 0 && g.Chance(0.4) {
+				r = gen.Pick(g, dep)
+			} else if g.Chance(0.6) {
 				r.Obj, r.Rel = t.Obj, t.Rel
 				if !rm.IsUserset(t.User) && !rm.IsWildcard(t.User) {
 					r.User = t.User
@@ -537,6 +607,9 @@ func c10Gen(runSeed uint64, tier string) *gen.Scenario {
 	sc.Knobs["mode"] = int64(g.Intn(2))
 	sc.Knobs["iter_max"] = []int64{2, 1000}[g.Intn(2)]
 	sc.Knobs["faults"] = 0
+	if g.Chance(0.5) {
+		sc.Knobs["max_latency_ns"] = 200000 // slow storage: requests overlap the writes for longer
+	}
 	return sc
 }
 
@@ -601,6 +674,16 @@ func c10Exec(t *testing.T, sc *gen.Scenario, trace bool) *harness.Outcome {
 			}
 		}
 		cur := append([]rm.Tuple(nil), sc.Tuples...)
+		var bg sync.WaitGroup
+		var gate chan struct{}
+		release := func() {
+			if gate != nil {
+				close(gate)
+				gate = nil
+			}
+		}
+		defer bg.Wait()
+		defer release()
 		for i, op := range sc.Ops {
 			switch op.Kind {
 			case "sleep":
@@ -618,6 +701,56 @@ func c10Exec(t *testing.T, sc *gen.Scenario, trace bool) *harness.Outcome {
 				simrt.Probe("writes")
 			case "req":
 				rq := *op.Req
+				if op.N >= 1 && !rq.HC {
+					// in the background: only its effect on the caches matters
+					label := fmt.Sprintf("r%d.bg", i)
+					var reached chan struct{}
+					if op.N == 2 {
+						// held at its k-th storage operation (everything it read so far is the state before
+						// the write) until a later request has started reading; then it goes on, and stores
+						// what it computes from those reads
+						release()
+						k := 2 + int(e.Run.H("straddle", i)%4)
+						reached = make(chan struct{})
+						g, rc, done := make(chan struct{}), reached, false
+						gate = g
+						e.DS.Hook = func(ctx context.Context, oi simstore.OpInfo) {
+							switch {
+							case oi.Req == label && oi.N == k:
+								close(rc)
+								select {
+								case <-g:
+								case <-ctx.Done():
+								}
+							case oi.Req != label && !strings.HasSuffix(oi.Req, ".write") && !strings.HasSuffix(oi.Req, ".bg") && !done && oi.N >= 2:
+								done = true
+								release()
+							}
+						}
+					}
+					bg.Add(1)
+					go func() {
+						defer bg.Done()
+						ctx, cancel := reqCtx(i, ".bg", 10*time.Second)
+						defer cancel()
+						if chk != nil && rq.Kind == "check" {
+							_, _ = chk(ctx, rq)
+						} else {
+							_ = e.issue(ctx, s, e.StoreID, rq)
+						}
+					}()
+					if reached != nil {
+						select {
+						case <-reached:
+							simrt.Probe("requests_held_across_a_write")
+						case <-time.After(50 * time.Millisecond):
+						}
+					} else {
+						time.Sleep(time.Duration(op.Dur) + 1)
+					}
+					simrt.Probe("requests_in_flight_across_a_write")
+					continue
+				}
 				st := rm.NewState(sc.Model, append(append([]rm.Tuple(nil), cur...), rq.CtxTuples...))
 				ctx, cancel := reqCtx(i, "", 10*time.Second)
 				var a anyAns
